@@ -83,6 +83,9 @@ def fp_compiled(obj):
 
 
 def fp_exc(e):
+    if isinstance(e, RecursionError):
+        # where exactly the interpreter runs out of stack (and therefore the wording) depends on the caller's own depth
+        return ('exc', 'RecursionError', '')
     return ('exc', type(e).__name__, short(e))
 
 
